@@ -514,4 +514,107 @@ theorem fixElem_spec {cm : Nat → Int → Int → Bool} {m0 : HMem} {val' : IM}
   rw [e3]
   exact hfix
 
+/-! ### `Remove(e)` after `e.Value` was changed WITHOUT `Fix` -/
+
+/-- `e.Value = v; h.Remove(e)`: the invariant held before the value of `e` (live in `h`) was
+changed arbitrarily; `Remove(e)` needs no `Fix` first — it never looks at `e`'s (possibly wrong)
+place, only re-sites the element moved into the hole: exactly `e` leaves, the invariant holds
+again (in the new value table). -/
+theorem remove_change_spec {cm : Nat → Int → Int → Bool} {m0 : HMem} {val' : IM} {h e : Nat}
+    (hs : SWO (cm h)) (hh : h < 2) (hok : MemOK cm m0)
+    (hv : ∀ x, x ≠ e → val'.get x = m0.val.get x) (hown : m0.own.get e = some h) :
+    ∃ m', ({ m0 with val := val' } : HMem).remove (cm h) h e = some m' ∧ MemOK cm m' ∧
+      (e :: m'.arr h).Perm (m0.arr h) ∧ m'.arr (oth h) = m0.arr (oth h) ∧ m'.val = val' ∧
+      m'.fresh = m0.fresh ∧ m'.idx.get e = -1 ∧ m'.own.get e = none := by
+  let m : HMem := { m0 with val := val' }
+  have hc0 := hok.core
+  have hc : MemCore m :=
+    ⟨fun h' hh' => ⟨(hc0.idx h' hh').nodup, (hc0.idx h' hh').index⟩, hc0.own, hc0.ownR, hc0.ltf⟩
+  have hl : LeftOK m (fun _ => True) := hok.left
+  have hI := hc.idx h hh
+  have hs' := cmpId_swo hs val'
+  obtain ⟨k, hk, hek, hidx⟩ := live_pos hh hc0 hown
+  have hO : OrdAt (cm h) m0.val m0 h := (heapOrd_iff (cm h) m0 h).1 (hok.ord h hh)
+  have hoth : HeapOrd (cm (oth h)) m (oth h) := by
+    rw [heapOrd_iff]
+    refine ordAt_congr (m := m0) rfl ?_ ((heapOrd_iff (cm (oth h)) m0 (oth h)).1 (hok.ord _ (oth_lt2 h)))
+    intro x hx
+    apply hv
+    intro hxe
+    exact hc0.disjoint' hh hx (hxe ▸ (hc0.own e h hh).1 hown)
+  have hval : ∀ c, c < (m0.arr h).length → c ≠ k →
+      val'.get (elemAt m0 h c) = m0.val.get (elemAt m0 h c) := by
+    intro c hc hck
+    apply hv
+    intro hce
+    exact hck (elemAt_inj (hc0.idx h hh).nodup hc hk (hce.trans hek.symm))
+  have hidsm : ids m h = ids m0 h := rfl
+  have hpair : ∀ c, c < (m0.arr h).length → 1 ≤ c → c ≠ k → par c ≠ k →
+      cmpId (cm h) val' (nthN (ids m h) c) (nthN (ids m h) (par c)) = false := by
+    intro c hc hc1 hck hpk
+    have hp : par c < (m0.arr h).length := by unfold par; omega
+    rw [hidsm, nthN_ids, nthN_ids]
+    simp only [cmpId, Int.toNat_natCast]
+    rw [hval c hc hck, hval (par c) hp hpk]
+    exact hO c hc hc1
+  have hgrand : 1 ≤ k → ∀ c, c < (m0.arr h).length → 1 ≤ c → par c = k →
+      cmpId (cm h) val' (nthN (ids m h) c) (nthN (ids m h) (par k)) = false := by
+    intro hk1 c hc hc1 hpc
+    have hck : c ≠ k := by unfold par at hpc; omega
+    have hpk : par k ≠ k := by unfold par; omega
+    have hp : par k < (m0.arr h).length := by unfold par; omega
+    rw [hidsm, nthN_ids, nthN_ids]
+    simp only [cmpId, Int.toNat_natCast]
+    rw [hval c hc hck, hval (par k) hp hpk]
+    have h1 := hO c hc hc1
+    rw [hpc] at h1
+    exact hs.negTrans (hO k hk hk1) h1
+  obtain ⟨n, hL⟩ : ∃ n, (m0.arr h).length = n + 1 := ⟨(m0.arr h).length - 1, by omega⟩
+  have hLm : (m.arr h).length = n + 1 := hL
+  have g1 : ¬ (m.own.get e = none ∨ m.own.get e ≠ some h) := by
+    show ¬ (m0.own.get e = none ∨ m0.own.get e ≠ some h); simp [hown]
+  have g2 : ¬ (m.idx.get e < 0 ∨ m.idx.get e ≥ ((m.arr h).length : Int)) := by
+    show ¬ (m0.idx.get e < 0 ∨ m0.idx.get e ≥ ((m0.arr h).length : Int)); omega
+  have hidxm : m.idx.get e = (k : Int) := hidx
+  have e1 : ((m.arr h).length : Int) - 1 = (n : Int) := by
+    show ((m0.arr h).length : Int) - 1 = (n : Int); omega
+  have hekm : elemAt m h k = e := hek
+  show ∃ m', m.remove (cm h) h e = some m' ∧ _
+  by_cases hkn : k = n
+  · subst hkn
+    have hheap2 : Heap (cmpId (cm h) m.val) ((ids m h).take k) := by
+      refine heap_take (by simp [hidsm]; omega) ?_
+      intro c hcc hc1 _
+      have hc' : c < (m0.arr h).length := by omega
+      exact hpair c hc' hc1 (by omega) (by unfold par; omega)
+    obtain ⟨m', hpl, hok', a', o', v', f', i', w', p'⟩ :=
+      popLast_core hh hc hl hoth hLm hheap2
+    rw [hekm] at hpl i' w' p'
+    refine ⟨m', ?_, hok', p', o', v', f', i', w'⟩
+    have : ¬ ((k : Int) ≠ m.idx.get e) := by omega
+    simp only [HMem.remove, g1, g2, if_false, e1, this, hpl, Option.map_some]
+  · have hlt : k < n := by omega
+    have hlen : (ids m h).length = n + 1 := by simpa [hidsm] using hL
+    obtain ⟨s2, hsw, hfix, hs2len, hx, hheap', _⟩ :=
+      slice_remove_run_core hs' (ids m h) k n hlen hlt
+        (fun c hcc hc1 hck hpk => hpair c (by omega) hc1 hck hpk)
+        (fun hk1 c hcc hc1 hpc => hgrand hk1 c (by omega) hc1 hpc)
+    obtain ⟨m1, hm1, R1⟩ := swap_transfer (cmp := cm h) (SiftRel.refl hI) hsw
+    obtain ⟨m2, hm2, R2⟩ := fix_transfer R1 hfix
+    have len2 : (m2.arr h).length = n + 1 := by rw [R2.perm.length_eq]; exact hLm
+    have hheap2 : Heap (cmpId (cm h) m2.val) ((ids m2 h).take n) := by
+      rw [R2.val, ← R2.idsEq]; exact hheap'
+    obtain ⟨m', hpl, hok', a', o', v', f', i', w', p'⟩ :=
+      popLast_core hh (sift_core hh hc R2) (sift_left hh hc hl R2) (sift_ord_other R2 hoth) len2 hheap2
+    have he : elemAt m2 h n = e := by
+      rw [← hekm]
+      apply elemAt_of_nthN
+      rw [← R2.idsEq]; exact hx
+    rw [he] at hpl i' w' p'
+    refine ⟨m', ?_, hok', p'.trans R2.perm, o'.trans R2.other, v'.trans R2.val,
+      f'.trans R2.fresh, i', w'⟩
+    have hne : ((n : Int) ≠ m.idx.get e) := by omega
+    simp only [HMem.remove, g1, g2, if_false, e1, hne, ne_eq, not_false_eq_true, if_true]
+    simp only [hidxm, hm1, hm2, hpl, Option.map_some]
+
 end Golib.C04
